@@ -11,7 +11,7 @@ from .model import flat_graph
 from .ref import ref_select
 
 ARG_VALUES = ["0", "1", "4", "True", "False"]
-INPUT_VALUES = {"tuple2": ["(5, True)", "(0, False)", "(31, False)"], "dict": ["{'a': 3, 'b': False}", "{'a': 0, 'b': True}"],
+INPUT_VALUES = {"tuple2": ["(5, True)", "(0, False)", "(31, False)"], "dict": ["{'a': 3, 'b': False, 'items': 4}", "{'a': 0, 'b': True, 'items': 0}"],
                 "list3": ["[1, 2, True]", "[9, 0, False]"], "none": ["None", "4"]}
 
 
@@ -170,11 +170,11 @@ P_C02 = gen.profile(**{**gen.SCHED, "swarm": ("resources", "p_dep", "max_args", 
                        "max_depth": 2, "p_kwarg": 0.3, "p_index": 0.5, "p_unpack": 0.4,
                        "ret_types": [("int", 5), ("bool", 2), ("tuple2", 3), ("list3", 1), ("dict", 1), ("none", 1)]})
 P_C03 = gen.profile(**{**gen.SCHED, "swarm": ("resources", "p_dep", "max_args", "p_seq", "p_prio"), "w_nested": 1.2, "max_depth": 1,
-                       "p_nested_flag": 0.3, "p_tag": 0.25, "p_tag_is_id": 0.3, "p_setup_in_nested": 1.0, "p_reuse": 0.5, "p_setup": 0.12, "p_flag": 0.3, "p_unpack": 0.5, "p_fn_unpack": 0.1,
+                       "p_nested_flag": 0.3, "p_tag": 0.25, "p_tag_is_id": 0.3, "p_debug": 0.1, "p_setup_in_nested": 1.0, "p_reuse": 0.5, "p_setup": 0.12, "p_flag": 0.3, "p_unpack": 0.5, "p_fn_unpack": 0.1,
                        "ret_types": [("int", 4), ("bool", 2), ("tuple2", 3), ("dict", 1), ("none", 1)]})
-P_C04 = gen.profile(**{**gen.SCHED, "swarm": ("resources", "p_dep", "max_args", "p_seq", "p_prio"), "shape_bias": [("wide", 3), ("uniform", 1)], "mc": (1, 3), "p_flag": 0.05, "p_setup": 0.15, "n_stmts": (1, 10),
+P_C04 = gen.profile(**{**gen.SCHED, "swarm": ("resources", "p_dep", "max_args", "p_seq", "p_prio"), "shape_bias": [("wide", 3), ("uniform", 1)], "mc": (1, 3), "p_flag": 0.05, "p_setup": 0.15, "n_stmts": (1, 10), "w_nested": 0.8, "max_depth": 1,
                        "resources": [("thread", 4), ("async_thread", 3), ("main_thread", 2)]})
-P_C05 = gen.profile(**{**gen.SCHED, "p_seq": 0.35, "mc": (2, 5), "n_stmts": (3, 10)})
+P_C05 = gen.profile(**{**gen.SCHED, "p_seq": 0.35, "mc": (2, 5), "n_stmts": (3, 10), "w_nested": 0.8, "max_depth": 1})
 P_C06 = gen.profile(**{**gen.SCHED, "prio": (-3, 5), "p_prio": 0.85, "p_flag": 0.1})
 P_C06D = gen.profile(**{**gen.SCHED, "prio": (-3, 5), "p_prio": 0.9, "p_flag": 0.05, "p_debug": 0.3, "n_stmts": (3, 10)})
 P_C08 = gen.profile(**{**gen.SCHED, "mc": (2, 5), "n_stmts": (3, 10), "p_seq": 0.15, "p_setup": 0.1,
@@ -202,6 +202,8 @@ def g_c02(d: Draw) -> dict:
 
 def g_c03(d: Draw) -> dict:
     scn = scn_sched(d, P_C03, selections=0.45, history=0.4, compose=0.08)
+    if scn["program"]["dags"]["main"].get("has_debug"):
+        scn["debug_on"] = d.bool(0.5)   # debug nodes run only when switched on, and only with all their inputs available
     return inner_setup_first(d, scn)
 
 
@@ -304,7 +306,8 @@ def reg(p: Prop) -> None:
 
 
 reg(Prop("C02", g_c02, {"order": "C02.a", "dependent_of_failed": "C02.a", "args": "C02.b"}))
-reg(Prop("C03", g_c03, {"count_missing": "C03.a", "count_dup": "C03.a", "count_extra": "C03.b", "deact_ran": "C03.b"}))
+reg(Prop("C03", g_c03, {"count_missing": "C03.a", "count_dup": "C03.a", "count_extra": "C03.b", "deact_ran": "C03.b",
+                        "debug_input_missing": "C03.b"}))
 reg(Prop("C04", g_c04, {"maxconc": "C04.a", "thread_pool": "C04.b", "thread_main": "C04.c"}))
 reg(Prop("C05", g_c05, {"seq_enter": "C05.a", "seq_during": "C05.b"}))
 reg(Prop("C06", g_c06, {"prio": "C06.a"}))
@@ -515,6 +518,9 @@ def g_c07(d: Draw) -> dict:
     dg = spec["dags"]["main"]
     flat = all(s["k"] != "dag" for s in dg["stmts"])
     ops: List[dict] = [dict(op="cprio", inst="E:main")]
+    if d.bool(0.3):
+        # the DAG has already been called when it is re-configured: nothing computed for the old priorities may survive
+        ops.insert(0, dict(op="call", inst="E:main", args=draw_args(d, dg)))
     if d.bool(0.4):
         nodes = []
         calls = [i for i, s in enumerate(dg["stmts"]) if s["k"] != "dag"]
@@ -779,9 +785,14 @@ def g_c18(d: Draw) -> dict:
     if d.bool(0.3):
         # second round on the SAME path with another selection: the file is rewritten, the restart must see the new content
         ops.append(dict(op="executor", inst="E:main", ex="w2", cache_in="c.pkl"))
+        early = d.bool(0.5)
+        if early:
+            # the restarting executor object exists before the file is rewritten: the file is read when the restart STARTS
+            ops.append(dict(op="executor", inst="E:main", ex="r2", from_cache="c.pkl"))
         ops.append(dict(op="exrun", ex="w2", args=args))
         ops.append(dict(op="read_cache", file="c.pkl", inst="E:main"))
-        ops.append(dict(op="executor", inst="E:main", ex="r2", from_cache="c.pkl"))
+        if not early:
+            ops.append(dict(op="executor", inst="E:main", ex="r2", from_cache="c.pkl"))
         ops.append(dict(op="exrun", ex="r2", args=args))
     scn = base_scn(spec, ops)
     scn["prebuild"].append(dict(env="F", dags=spec["order"]))
@@ -854,7 +865,26 @@ def g_c19(d: Draw) -> dict:
     return base_scn(spec, ops)
 
 
+P_C15S = gen.profile(**{**gen.SCHED, "p_setup": 0.2, "n_stmts": (2, 7), "p_flag": 0.1, "n_params": (1, 3), "p_default": 0.7})
+
+
 def g_c15(d: Draw) -> dict:
+    if d.bool(0.1):
+        # setup results are the only state a DAG keeps: the run that first executes the setup nodes gets explicit values for the
+        # defaulted parameters, a later call omits them and must see the declared defaults
+        spec = gen.gen_program(d, P_C15S)
+        dg = spec["dags"]["main"]
+        ops = [dict(op="results_keys", inst="E:main")]
+        if d.bool(0.4):
+            ops.append(dict(op="executor", inst="E:main", sel=draw_selection(d, spec, "main", p_R=0.0, p_X=0.1, p_T=0.4), ex="e0"))
+            ops.append(dict(op="exrun", ex="e0", args=draw_args(d, dg, 0.0)))
+        else:
+            ops.append(dict(op="call", inst="E:main", args=draw_args(d, dg, 0.0)))
+        ops.append(dict(op="results_keys", inst="E:main"))
+        for _ in range(d.int(1, 2)):
+            ops.append(dict(op="call", inst="E:main", args=draw_args(d, dg, 0.85)))
+        ops.append(dict(op="results_keys", inst="E:main"))
+        return base_scn(spec, ops)
     spec = gen.gen_program(d, P_C15)
     dg = spec["dags"]["main"]
     from .model import HistoryModel
